@@ -189,6 +189,21 @@ def run(ctx):
         selftest_driver(ctx, deep, b_std)
     if not q:
         ctx.extra["exhaustive"] = True
+    # extension: witness checks while the contract table changes under the running invocation (spec/witnessdyn, harness/c15dyn)
+    ext = _load_ext("c15_dyn")
+    if ext:
+        ext.run_ext(ctx)
+
+
+def _load_ext(name):
+    import importlib.util
+    p = os.path.join(os.path.dirname(os.path.abspath(__file__)), name + ".py")
+    if not os.path.exists(p):
+        return None
+    sp = importlib.util.spec_from_file_location("check_" + name, p)
+    m = importlib.util.module_from_spec(sp)
+    sp.loader.exec_module(m)
+    return m
 
 
 def selftest_trace(ctx, events):
